@@ -7,6 +7,12 @@ GRPCGCP_INSTR_YIELD = {"gcp_balancer.go": ["-yield"], "gcp_picker.go": ["-yield"
 ENGINES = {
     "poolsim": dict(module="grpcgcp", pkg=".", pkgname="grpcgcp", pkgmarker="grpcgcp.", harness="grpcgcp",
                     files=["poolsim_test.go"], instrument=GRPCGCP_INSTR_CLOCK),
+    "merace": dict(module="grpcgcp", pkg="multiendpoint", pkgname="multiendpoint", pkgmarker="multiendpoint.", harness="multiendpoint",
+                   files=["merace_test.go"], kind="concurrent MultiEndpoint workload with real timers (race detector)"),
+    "gmerace": dict(module="grpcgcp", pkg=".", pkgname="grpcgcp", pkgmarker="grpcgcp.", harness="grpcgcp",
+                    files=["gme_test.go"], instrument={"gcp_multiendpoint.go": ["-yield"]}, kind="concurrent GCPMultiEndpoint workload over bufconn (race detector)"),
+    "streamrace": dict(module="grpcgcp", pkg=".", pkgname="grpcgcp", pkgmarker="grpcgcp.", harness="grpcgcp",
+                       files=["stream_test.go", "poolsim_test.go"], instrument={"gcp_interceptor.go": ["-yield"], "gcp_balancer.go": ["-clock"], "gcp_picker.go": ["-clock"]}, kind="concurrent stream wrapper workload (race detector)"),
     "mesim": dict(module="grpcgcp", pkg="multiendpoint", pkgname="multiendpoint", pkgmarker="multiendpoint.", harness="multiendpoint",
                   files=["mesim_test.go"], kind="sequential virtual-clock simulation of MultiEndpoint vs reference state machine"),
     "keys": dict(module="grpcgcp", pkg=".", pkgname="grpcgcp", pkgmarker="grpcgcp.", harness="grpcgcp",
@@ -155,6 +161,15 @@ PROPS["C10"] = dict(level="exploration",
                  "reports whose two stacks contain no repo frame make the run inconclusive, never a verdict"],
     stages=[dict(name="race-balancer", engine="stress", test="TestVerifRaceBalancer", race=True, batches=dict(quick=6, thorough=18),
                  essential={"C10": ["C10.picks", "C10.placed", "C10.swaps-completed", "C10.overlap:callback||pick", "C10.overlap:callback||done", "C10.overlap:pick||done", "C10.overlap:done||done", "C10.overlap:pick||pick"]},
+                 timeout=dict(quick=900, thorough=7200), crash_props=["C10"]),
+            dict(name="race-gme", engine="gmerace", test="TestVerifRaceGME", race=True, batches=dict(quick=3, thorough=12),
+                 essential={"C10": ["C10.gme-rpcs-ok", "C10.gme-updates", "C10.gme-outages", "C10.gme-config-reads"]},
+                 timeout=dict(quick=900, thorough=7200), crash_props=["C10"]),
+            dict(name="race-me", engine="merace", test="TestVerifRaceME", race=True, batches=dict(quick=6, thorough=12),
+                 essential={"C10": ["C10.me-reports", "C10.me-set-endpoints", "C10.me-current-reads"]},
+                 timeout=dict(quick=900, thorough=7200), crash_props=["C10"]),
+            dict(name="race-stream", engine="streamrace", test="TestVerifRaceStream", race=True, batches=dict(quick=4, thorough=12),
+                 essential={"C10": ["C10.stream-programs", "C10.stream-sends", "C10.stream-recvs"]},
                  timeout=dict(quick=900, thorough=7200), crash_props=["C10"])])
 
 def stress_stage(prop_essential):
